@@ -2725,6 +2725,11 @@ static void struct_members(Token **rest, Token *tok, Type *ty) {
       Member *mem = calloc(1, sizeof(Member));
       mem->ty = declarator(&tok, tok, basety);
       mem->name = mem->ty->name;
+
+      // A member cannot have an incomplete struct or union type, in
+      // particular not the type being defined.
+      if ((mem->ty->kind == TY_STRUCT || mem->ty->kind == TY_UNION) && mem->ty->size < 0)
+        error_tok(tok, "field has incomplete type");
       mem->idx = idx++;
       mem->align = attr.align ? attr.align : mem->ty->align;
 
